@@ -118,6 +118,11 @@ def render(spec):
             w.append("    __slots__ = ('v', 'w')\n")
         if style == "no_init":
             w.append("    v = 1\n")
+        elif style == "aliased":
+            # the constructor and __setattr__ are helper functions bound under the special names by assignment
+            w.append("    def _setup(self):\n        LOG.append(('ctor_enter', 'Root'))\n        self.v = 1\n        LOG.append(('ctor_exit', 'Root'))\n"
+                     "    __init__ = _setup\n"
+                     "    def _assign(self, name, value):\n        object.__setattr__(self, name, value)\n    __setattr__ = _assign\n")
         elif style == "user_new":
             w.append("    def __new__(cls, *a, **k):\n        LOG.append(('new_enter',))\n        obj = super().__new__(cls)\n"
                      "        obj.v = 0\n        LOG.append(('new_exit',))\n        return obj\n")
@@ -213,7 +218,7 @@ def specs(tier):
     inv_opts_t = inv_opts_q + [["C", "C"], ["C", "A"], ["S", "S"], ["S", "A"], ["A", "S"], ["A", "A"]]
     inv_opts = inv_opts_q if tier == "quick" else inv_opts_t
     for base in ("object", "DBC"):
-        for style in ("plain", "slots", "dataclass", "namedtuple", "no_init", "user_new", "getattribute"):
+        for style in ("plain", "slots", "dataclass", "namedtuple", "no_init", "user_new", "getattribute", "aliased"):
             if style == "namedtuple" and base == "DBC":
                 continue
             for invs in inv_opts:
